@@ -1051,7 +1051,7 @@ func C13() *check.Property {
 		Title:    "Goroutine-safe parts of the API are free of data races",
 		Patterns: cat(CorePatterns, []string{PromPkg}),
 		Scope:    []string{ro},
-		Rules:    []check.Rule{ruleTypeProtection(), ruleSCVarProtection(), ruleHelperPointerProtection(), ruleNoDowngrade(), ruleShareGuarded(), ruleLockPairing(), ruleMultiProducerSafe()},
+		Rules:    []check.Rule{ruleTypeProtection(), ruleSCVarProtection(), ruleHelperPointerProtection(), ruleNoDowngrade(), ruleChanCloseSend(), ruleShareGuarded(), ruleLockPairing(), ruleMultiProducerSafe()},
 		Explanation: "Static lock-set discipline check (Eraser's rule applied to the source), restricted to the state the property names. For the goroutine-safe types every field written after construction must be accessed atomically, through a concurrency-safe type, or with one " +
 			"common mutex held by all accesses (data-flow of held locks over each method's CFG, with deferred unlocks, TryLock edges, and lock requirements of helpers/closures inferred from all their call sites). For every operator built with a safe constructor, each closure variable " +
 			"that is written after publication and reachable from two possibly-concurrent emission contexts (the relation of C02, teardown included) must be protected the same way. Share's per-application state is checked likewise. It reports locations that are not consistently protected; " +
